@@ -116,6 +116,42 @@ pub fn representatives() -> Vec<AddrSpec> {
     v
 }
 
+/// Blech32 / blech32m checksum written from the Elements specification (12-symbol BCH code over GF(32),
+/// 60-bit state), independent of the library's generator table: residue 1 for blech32, 0x455972a3350f7a1 for
+/// blech32m. Returns the residue of hrp-expansion ++ data (checksum included).
+pub fn blech32_polymod_ref(s: &str) -> Option<u64> {
+    let s = s.to_ascii_lowercase();
+    let sep = s.rfind('1')?;
+    let (hrp, data) = (&s[..sep], &s[sep + 1..]);
+    let mut vals: Vec<u8> = hrp.bytes().map(|b| b >> 5).collect();
+    vals.push(0);
+    vals.extend(hrp.bytes().map(|b| b & 31));
+    for c in data.bytes() {
+        vals.push(ALPHABET.iter().position(|a| *a == c)? as u8);
+    }
+    let mut c: u64 = 1;
+    for v in vals {
+        let c0 = (c >> 55) as u8;
+        c = ((c & 0x7f_ffff_ffff_ffff) << 5) ^ v as u64;
+        if c0 & 1 != 0 {
+            c ^= 0x7d_52fb_a40b_d886;
+        }
+        if c0 & 2 != 0 {
+            c ^= 0x5e_8dbf_1a03_950c;
+        }
+        if c0 & 4 != 0 {
+            c ^= 0x1c_3a3c_7407_2a18;
+        }
+        if c0 & 8 != 0 {
+            c ^= 0x38_5d72_fa0e_5139;
+        }
+        if c0 & 16 != 0 {
+            c ^= 0x70_93e5_a608_865b;
+        }
+    }
+    Some(c)
+}
+
 fn parses(s: &str) -> Option<String> {
     if let Ok(a) = Address::from_str(s) {
         return Some(format!("from_str -> {}", a));
@@ -174,6 +210,13 @@ impl World for AddrWorld {
         ctx.check(ok, "C17.baseline", "unparsed", || format!("uncorrupted address {} does not parse", s));
         if !ok {
             return;
+        }
+        // the fault results mean little if the code itself is not the specified one: the formatted blinded
+        // address must carry the checksum the Elements specification defines for its witness version
+        if case.spec.blinded {
+            let want = if case.spec.version == 0 { 1u64 } else { 0x455_972a_3350_f7a1 };
+            let got = blech32_polymod_ref(&s);
+            ctx.check(got == Some(want), "C17.baseline", "reference-checksum", || format!("address {} does not carry the specified blech32{} checksum (reference residue {:x?}, expected {:x})", s, if case.spec.version == 0 { "" } else { "m" }, got, want));
         }
         let sep = s.rfind('1').expect("separator");
         let data_start = sep + 1;
